@@ -159,7 +159,7 @@ define(globals(), 'C06', 'register_unregister', ['r0', 'r1', 'c0', 'version', 'o
 
 
 # ---- per connection: k frames under arbitrary chunking, replies in request order ----------------------------------------------------------
-def do_sequence(kinds, ctxs, v, cuts):
+def do_sequence(kinds, ctxs, v, cuts, interesting=True):
     sim.RANDOM.n = 1000
     sim.attribute('A').value[:] = [1, 2, 3, 4]
     frames = [ref.encap(0x65, 0, 0, [0] * 8, 0, ref.register())]
@@ -169,7 +169,16 @@ def do_sequence(kinds, ctxs, v, cuts):
         frames.append(rr_frame(1001, [c] * 8, 0, req))
         expect.append((c, svc, good))
     stream = [x for f in frames for x in f]
-    pos = sorted(concretize(c, len(stream) + 1) for c in cuts)
+    if interesting:
+        # frame boundaries -1/0/+1, the header/payload boundary of each frame and a few interior points
+        cand, at = [0], 0
+        for f in frames:
+            cand += [at + 1, at + 23, at + 24, at + 25, at + len(f) // 2, at + len(f) - 1, at + len(f)]
+            at += len(f)
+        cand = sorted(set(c for c in cand if 0 <= c <= len(stream)))
+        pos = sorted(cand[concretize(c, len(cand))] for c in cuts)
+    else:
+        pos = sorted(concretize(c, len(stream) + 1) for c in cuts)
     chunks, at = [], 0
     for p in pos:
         chunks.append(bytes(bytearray(stream[at:p])))
@@ -191,10 +200,17 @@ SEQS = [(['write_tag', 'read_tag'], 'quick'), (['read_beyond_end', 'multiple'], 
         (['multiple', 'set_attribute_single', 'read_tag'], 'thorough')]
 for kinds, tier in SEQS:
     cs = ['c%d' % i for i in range(len(kinds))]
-    define(globals(), 'C06', 'pipelined_%s' % "_".join(k.split('_')[0] + k.split('_')[-1][:3] for k in kinds), cs + ['v', 'cut0', 'cut1'],
-           "return do_sequence(%r, [%s], v, [cut0, cut1])" % (kinds, ", ".join(cs)),
-           [" and ".join('0 <= %s <= 255' % c for c in cs), '-32768 <= v <= 32767 and 0 <= cut0 and 0 <= cut1'],
+    nm = "_".join(k.split('_')[0] + k.split('_')[-1][:3] for k in kinds)
+    define(globals(), 'C06', 'pipelined_onecut_%s' % nm, cs + ['v', 'cut0'], "return do_sequence(%r, [%s], v, [cut0], True)" % (kinds, ", ".join(cs)),
+           [" and ".join('0 <= %s <= 255' % c for c in cs), '-32768 <= v <= 32767 and 0 <= cut0'],
            tier=tier, timeout=3000, path_timeout=300, drives=DRIVES + ['cpppo.server.enip.main.enip_srv_tcp'], stubs=STUBS,
+           symbolic=['c*: the sender context of each request', 'v', 'cut0: one chunk boundary chosen among ~20 structurally interesting offsets (frame boundaries +-1, header/payload boundary, mid-frame)'],
+           bounds='Register + %r written to the connection in two chunks cut at every structurally interesting offset (or coalesced) through the real enip_srv_tcp: '
+                  'one reply per request, in request order, each echoing its own context and answering its own service' % kinds, outside='every byte offset (thorough tier)')
+    define(globals(), 'C06', 'pipelined_%s' % nm, cs + ['v', 'cut0', 'cut1'],
+           "return do_sequence(%r, [%s], v, [cut0, cut1], False)" % (kinds, ", ".join(cs)),
+           [" and ".join('0 <= %s <= 255' % c for c in cs), '-32768 <= v <= 32767 and 0 <= cut0 and 0 <= cut1'],
+           tier='thorough', timeout=20000, path_timeout=300, drives=DRIVES + ['cpppo.server.enip.main.enip_srv_tcp'], stubs=STUBS,
            symbolic=['c*: the sender context of each request', 'v', 'cut0, cut1: EVERY pair of chunk boundaries of the byte stream (requests written before any reply is read)'],
            bounds='Register + %r written to the connection under every 3-way chunking (all coalesced .. arbitrary cuts) through the real enip_srv_tcp: one '
                   'reply per request, in request order, each echoing its own context and answering its own service' % kinds, outside='more frames; other threads')
